@@ -37,12 +37,23 @@ type puLibFn struct {
 	retain []int
 	// total: cannot fail and has no effect (a plain value instead of Res)
 	total bool
-	doc   string
+	// resExact: slice results assumed to have no spare capacity (cap = len), so that x[a:b] on a variable that only
+	// ever holds such a result panics exactly when b > len(x)
+	resExact []int
+	// noReturn: the call ends the process (fatal.Fatalf); its outcome is whatever the instantiation says, the
+	// translation goes on after it as if it had returned
+	noReturn bool
+	doc      string
 }
 
 func (c *puFn) libKey(call *ast.CallExpr) string {
 	if s := c.stdCall(call); s != "" {
 		return s
+	}
+	if id, ok := call.Fun.(*ast.Ident); ok {
+		if f, ok := c.pkg.info.Uses[id].(*types.Func); ok && f.Pkg() != nil {
+			return f.Pkg().Path() + "." + f.Name()
+		}
 	}
 	if sel, ok := call.Fun.(*ast.SelectorExpr); ok {
 		if s, ok := c.pkg.info.Selections[sel]; ok && s.Kind() == types.MethodVal {
@@ -71,6 +82,10 @@ func (c *puFn) libOf(call *ast.CallExpr) *puLibFn {
 }
 
 func (c *puFn) libFuncObj(call *ast.CallExpr) *types.Func {
+	if id, ok := call.Fun.(*ast.Ident); ok {
+		f, _ := c.pkg.info.Uses[id].(*types.Func)
+		return f
+	}
 	sel, ok := call.Fun.(*ast.SelectorExpr)
 	if !ok {
 		return nil
@@ -96,8 +111,8 @@ func (c *puFn) libType(l *puLibFn, fo *types.Func) (string, error) {
 		recvT = n
 		parts = append(parts, n)
 	}
-	if sig.Variadic() {
-		return "", fmt.Errorf("variadic library function %s", l.key)
+	if l.noReturn {
+		return "Res Unit", nil
 	}
 	for i := 0; i < sig.Params().Len(); i++ {
 		pt := sig.Params().At(i).Type()
@@ -256,6 +271,19 @@ func (gc *puGroupCtx) scanRich() {
 	}
 	var expose func(t types.Type, depth int)
 	expose = func(t types.Type, depth int) {
+		// through slices, arrays and pointers to the element type
+		for i := 0; i < 4; i++ {
+			switch u := t.Underlying().(type) {
+			case *types.Slice:
+				t = u.Elem()
+			case *types.Array:
+				t = u.Elem()
+			case *types.Pointer:
+				if _, isStruct := u.Elem().Underlying().(*types.Struct); !isStruct {
+					t = u.Elem()
+				}
+			}
+		}
 		n := puNamedStruct(t)
 		if n == nil || depth > 8 {
 			return
@@ -637,8 +665,17 @@ func (c *puFn) buildClassesWith(withRetain bool) *puClasses {
 		res[i] = r
 		k.find(r)
 	}
+	// two parameters whose carriers hold references (slices, pointers, rest_) may have been given overlapping storage
+	// by the caller
+	var refParams []*types.Var
 	for _, p := range c.allParams() {
 		k.find(p)
+		if c.carrierHoldsRefs(p.Type(), 0) {
+			refParams = append(refParams, p)
+		}
+	}
+	for i := 1; i < len(refParams); i++ {
+		k.union(refParams[0], refParams[i])
 	}
 	link := func(lhs ast.Expr, vs []*types.Var) {
 		if id, ok := lhs.(*ast.Ident); ok && id.Name == "_" {
@@ -1141,6 +1178,18 @@ func (c *puFn) callFx(call *ast.CallExpr) (lines []string, exprs []string, nn []
 }
 
 func (c *puFn) libCall(call *ast.CallExpr, l *puLibFn) ([]string, []string, []bool, error) {
+	if l.noReturn {
+		for _, a := range call.Args {
+			if !puHarmless(a) {
+				return nil, nil, nil, c.errf(a, "operand of %s that could fail or have an effect", l.key)
+			}
+		}
+		c.grp.libUsed[l.field] = "Res Unit"
+		if _, err := c.bind(call, "L."+l.field); err != nil {
+			return nil, nil, nil, err
+		}
+		return c.takePre(), nil, nil, nil
+	}
 	fo := c.libFuncObj(call)
 	if fo == nil {
 		return nil, nil, nil, c.errf(call, "library call %s: no type information", l.key)
@@ -1151,7 +1200,11 @@ func (c *puFn) libCall(call *ast.CallExpr, l *puLibFn) ([]string, []string, []bo
 	}
 	c.grp.libUsed[l.field] = lt
 	sig := fo.Type().(*types.Signature)
-	if call.Ellipsis.IsValid() || len(call.Args) != sig.Params().Len() {
+	nfixed := sig.Params().Len()
+	if sig.Variadic() {
+		nfixed--
+	}
+	if call.Ellipsis.IsValid() || len(call.Args) < nfixed || (!sig.Variadic() && len(call.Args) != nfixed) {
 		return nil, nil, nil, c.errf(call, "library call %s: argument shape", l.key)
 	}
 	parts := []string{"L." + l.field}
@@ -1169,6 +1222,7 @@ func (c *puFn) libCall(call *ast.CallExpr, l *puLibFn) ([]string, []string, []bo
 		parts = append(parts, r)
 	}
 	var inPlaceVar *types.Var
+	var variadic []string
 	for i, a := range call.Args {
 		needNonNil := false
 		for _, j := range l.nonNil {
@@ -1204,7 +1258,15 @@ func (c *puFn) libCall(call *ast.CallExpr, l *puLibFn) ([]string, []string, []bo
 		if err != nil {
 			return nil, nil, nil, err
 		}
+		if i >= nfixed {
+			variadic = append(variadic, s)
+			continue
+		}
 		parts = append(parts, s)
+	}
+	if sig.Variadic() {
+		// f(a, xs…) with the variadic operands written out: the slice the callee sees
+		parts = append(parts, "["+strings.Join(variadic, ", ")+"]")
 	}
 	t, err := c.bind(call, strings.Join(parts, " "))
 	if err != nil {
@@ -1774,7 +1836,7 @@ func (c *puFn) richAssign(lhs, rhs ast.Expr) ([]string, bool, error) {
 	}
 	nn := c.nonNilExpr(rhs)
 	var val string
-	var after *types.Var
+	var after []*types.Var
 	if call := c.builtinCall(rhs, "append"); call != nil {
 		// append(a, …) as a value: a ++ …. It may write into the spare capacity of a: every other variable that may
 		// share storage with a is stale afterwards (a itself keeps its elements)
@@ -1812,12 +1874,7 @@ func (c *puFn) richAssign(lhs, rhs ast.Expr) ([]string, bool, error) {
 			}
 			val = "(" + base + " ++ [" + strings.Join(parts, ", ") + "])"
 		}
-		if _, isLit := call.Args[0].(*ast.CompositeLit); !isLit {
-			after = c.rootVar(call.Args[0])
-			if after == nil {
-				return nil, true, c.errf(call.Args[0], "append to something that is neither a literal nor rooted at a variable")
-			}
-		}
+		after = c.borrowed(call.Args[0])
 	} else {
 		var err error
 		if val, err = c.expr(rhs); err != nil {
@@ -1825,8 +1882,8 @@ func (c *puFn) richAssign(lhs, rhs ast.Expr) ([]string, bool, error) {
 		}
 	}
 	lines := c.takePre()
-	if after != nil {
-		c.overwrite(after, false)
+	for _, v := range after {
+		c.overwrite(v, false)
 	}
 	more, err := c.assignTo(lhs, val)
 	if err != nil {
@@ -1969,6 +2026,14 @@ func (c *puFn) checkRich() error {
 			walkBlock(x.List)
 		case *ast.CaseClause:
 			walkBlock(x.Body)
+		case *ast.SliceExpr:
+			// x[a:b] anywhere, x a variable that only ever holds a library result declared to have cap = len:
+			// b > len(x) is b > cap(x), the slice expression panics exactly when Go.slice does
+			if x.High != nil && x.Max == nil {
+				if v := c.identVar(x.X); v != nil && c.onlyExact(v) {
+					c.forcedHigh[x] = true
+				}
+			}
 		}
 		return true
 	})
@@ -2000,4 +2065,139 @@ func (c *puFn) checkRich() error {
 		}
 	}
 	return bad
+}
+
+// onlyExact: x is a local variable every assignment of which is a library call result declared resExact
+func (c *puFn) onlyExact(x *types.Var) bool {
+	if c.isParam(x) || x == c.recv {
+		return false
+	}
+	n, ok := 0, true
+	ast.Inspect(c.decl.Body, func(m ast.Node) bool {
+		switch s := m.(type) {
+		case *ast.AssignStmt:
+			for i, l := range s.Lhs {
+				if c.identVar(l) != x {
+					continue
+				}
+				n++
+				if len(s.Rhs) != 1 {
+					ok = false
+					continue
+				}
+				call, isCall := s.Rhs[0].(*ast.CallExpr)
+				if !isCall {
+					ok = false
+					continue
+				}
+				lf := c.libOf(call)
+				exact := false
+				if lf != nil {
+					for _, j := range lf.resExact {
+						if j == i {
+							exact = true
+						}
+					}
+				}
+				if !exact {
+					ok = false
+				}
+			}
+		case *ast.ValueSpec:
+			for _, id := range s.Names {
+				if c.pkg.info.Defs[id] == x {
+					ok = false
+				}
+			}
+		case *ast.UnaryExpr:
+			if s.Op == token.AND && c.identVar(s.X) == x {
+				ok = false
+			}
+		}
+		return true
+	})
+	return ok && n > 0
+}
+
+// copyStmt: copy(x.f[:], src) into an array field (arrays are values: no other name can see the write)
+func (c *puFn) copyStmt(call *ast.CallExpr) ([]string, error) {
+	if len(call.Args) != 2 {
+		return nil, c.errf(call, "copy shape")
+	}
+	se, ok := call.Args[0].(*ast.SliceExpr)
+	if !ok || se.Low != nil || se.High != nil || se.Max != nil {
+		return nil, c.errf(call, "copy into something that is not x.f[:]")
+	}
+	sel, ok := se.X.(*ast.SelectorExpr)
+	if !ok {
+		return nil, c.errf(call, "copy into something that is not x.f[:]")
+	}
+	t, err := c.typeOf(sel)
+	if err != nil {
+		return nil, err
+	}
+	if _, isArr := t.Underlying().(*types.Array); !isArr || c.kindOf(t) != puBytes {
+		return nil, c.errf(call, "copy into a slice (only into an array field, which is a value)")
+	}
+	dst, err := c.expr(sel)
+	if err != nil {
+		return nil, err
+	}
+	src, err := c.expr(call.Args[1])
+	if err != nil {
+		return nil, err
+	}
+	lines := c.takePre()
+	more, err := c.assignTo(sel, "(Go.copy "+dst+" "+src+")")
+	return append(lines, more...), err
+}
+
+func (c *puFn) isNoReturn(call *ast.CallExpr) bool {
+	l := c.libOf(call)
+	return l != nil && l.noReturn
+}
+
+// carrierHoldsRefs: can a value of this type, as carried, share storage with another value (slices; pointers to structs
+// and structs by the fields that are carried; rest_)
+func (c *puFn) carrierHoldsRefs(t types.Type, depth int) bool {
+	if depth > 6 {
+		return true
+	}
+	switch u := t.Underlying().(type) {
+	case *types.Basic:
+		return false
+	case *types.Array:
+		return c.carrierHoldsRefs(u.Elem(), depth+1)
+	case *types.Slice:
+		return true
+	case *types.Pointer:
+		if _, ok := u.Elem().Underlying().(*types.Struct); ok {
+			return c.carrierHoldsRefs(u.Elem(), depth+1)
+		}
+		return true
+	case *types.Struct:
+		n, _ := t.(*types.Named)
+		if n == nil {
+			return true
+		}
+		if !c.grp.g.rich {
+			for i := 0; i < u.NumFields(); i++ {
+				if c.carrierHoldsRefs(u.Field(i).Type(), depth+1) {
+					return true
+				}
+			}
+			return false
+		}
+		fs, rest, err := c.grp.structFields(n)
+		if err != nil || rest {
+			return true
+		}
+		for _, f := range fs {
+			if c.carrierHoldsRefs(f.Type(), depth+1) {
+				return true
+			}
+		}
+		return false
+	}
+	return !puIsErrorType(t)
 }
